@@ -8,6 +8,8 @@ from sim.monitors import StaleChildMonitor
 from sim.runner import Result, load_known
 
 PROPERTY = "C01"
+ORACLE = "T-scratch: outputs, canonical graph projection and return code equal to a calm from-scratch build of the final sources"
+DESIGN_REF = "DESIGN.md section 7 (C01), 6 (T-scratch)"
 RULE = (
     "scenario = generated project + 2-5 phases of 1-3 random edits (sources, plans, scripts, env, "
     "drop/re-add/redefine/move steps and plans, globs), each followed by a restart build under a "
